@@ -18,6 +18,7 @@ package consensus
 
 import (
 	"com.tuntun.rangers/node/src/common"
+	"com.tuntun.rangers/node/src/common/ed25519"
 	"com.tuntun.rangers/node/src/consensus/groupsig"
 	"com.tuntun.rangers/node/src/consensus/logical/group_create"
 	"com.tuntun.rangers/node/src/consensus/model"
@@ -49,7 +50,14 @@ func (helper *ConsensusHelperImpl) GenerateGenesisInfo() []*types.GenesisInfo {
 }
 
 func (helper *ConsensusHelperImpl) VRFProve2Value(prove *big.Int) *big.Int {
-	return vrf.VRFProof2Hash(vrf.VRFProve(prove.Bytes())).Big()
+	// big.Int drops the leading zero bytes of the proof; restore them before slicing
+	pi := prove.Bytes()
+	if len(pi) < ed25519.ProveSize {
+		padded := make([]byte, ed25519.ProveSize)
+		copy(padded[ed25519.ProveSize-len(pi):], pi)
+		pi = padded
+	}
+	return vrf.VRFProof2Hash(vrf.VRFProve(pi)).Big()
 }
 
 func (helper *ConsensusHelperImpl) VerifyHash(b *types.Block) common.Hash {
